@@ -112,7 +112,7 @@ class Ctx:
         return out
 
     def run_harness(self, exe, args, outfile, env=None, timeout=900, stdin=None):
-        e = dict(os.environ); e["VERIF_SEED"] = str(self.seed)
+        e = dict(os.environ); e["VERIF_SEED"] = str(self.seed); e["XRL_SCRATCH_DIR"] = self.scratch      # harness files never land in /tmp itself
         if env: e.update(env)
         with open(outfile, "w") as f:
             try:
